@@ -1,7 +1,7 @@
 (* C20 — Bit sets and fixed arrays behave like their mathematical models. Theorems only. *)
 From Coq Require Import List NArith Arith Bool.
 From Coq Require Import ZArith.
-From FFSM2 Require Import Model.BitArray Model.Arrays Proofs.BitArrayProofs Proofs.ArraysProofs Model.Cxx Generated.LeafCode Proofs.LeafTactics Proofs.LeafConsts Proofs.LeafCodeProofs.
+From FFSM2 Require Import Model.BitArray Model.Arrays Proofs.BitArrayProofs Proofs.ArraysProofs Model.Cxx Generated.LeafCode Proofs.LeafTactics Proofs.LeafConsts Proofs.LeafCodeProofs Proofs.LeafCodeArrays.
 Import ListNotations.
 
 Section BitSet.
@@ -105,6 +105,289 @@ Theorem C20_source_clear_is_the_model : forall cap b n, 1 <= cap <= 255 -> Foral
   = Some (None, [], (ba_obj (ba_clear b n))).
 Proof. exact src_BitArray_clear. Qed.
 Print Assumptions C20_source_clear_is_the_model.
+(* The whole-array operations, the index type the library itself uses, and the second index class (256 <= N <= 65535, Index = uint16_t):
+   statements as Coq prints them for the lemmas of Proofs/LeafCodeArrays.v. *)
+Theorem C20_source_BitArray_set_all_is_the_model :
+  forall (capN : N) (b : list N),
+         (1 <= capN <= 255)%N ->
+         Forall (fun x : N => (x < 256)%N) b ->
+         N.of_nat (length b) = ((capN + 7) / 8)%N ->
+         result (run leaf_ftable (ba_consts (Z.of_N capN)) BitArrayT_13__set [] [] (ba_obj b)) =
+         Some (None, [], ba_obj (ba_set_all capN b)).
+Proof. exact src_BitArray_set_all. Qed.
+Print Assumptions C20_source_BitArray_set_all_is_the_model.
+Theorem C20_source_BitArray_clear_all_is_the_model :
+  forall (cap : Z) (b : list N),
+         (1 <= cap <= 255)%Z ->
+         Forall (fun x : N => (x < 256)%N) b ->
+         Z.of_nat (length b) = ((cap + 7) / 8)%Z ->
+         result (run leaf_ftable (ba_consts cap) BitArrayT_13__clear [] [] (ba_obj b)) = Some (None, [], ba_obj (ba_clear_all b)).
+Proof. exact src_BitArray_clear_all. Qed.
+Print Assumptions C20_source_BitArray_clear_all_is_the_model.
+Theorem C20_source_BitArray_empty_is_the_model :
+  forall (cap : Z) (b : list N),
+         (1 <= cap <= 255)%Z ->
+         Forall (fun x : N => (x < 256)%N) b ->
+         Z.of_nat (length b) = ((cap + 7) / 8)%Z ->
+         result (run leaf_ftable (ba_consts cap) BitArrayT_13__empty [] [] (ba_obj b)) =
+         Some (Some (b2z (ba_empty b)), [], ba_obj b).
+Proof. exact src_BitArray_empty. Qed.
+Print Assumptions C20_source_BitArray_empty_is_the_model.
+Theorem C20_source_BitArray_and_is_the_model :
+  forall (cap : Z) (b o : list N),
+         (1 <= cap <= 255)%Z ->
+         Forall (fun x : N => (x < 256)%N) b ->
+         Forall (fun x : N => (x < 256)%N) o ->
+         Z.of_nat (length b) = ((cap + 7) / 8)%Z ->
+         length o = length b ->
+         result (run leaf_ftable (ba_consts cap) BitArrayT_13__op_and [] [] (ba2_obj b o)) =
+         Some (Some (b2z (ba_and b o)), [], ba2_obj b o).
+Proof. exact src_BitArray_and. Qed.
+Print Assumptions C20_source_BitArray_and_is_the_model.
+Theorem C20_source_BitArray_and_assign_is_the_model :
+  forall (cap : Z) (b o : list N),
+         (1 <= cap <= 255)%Z ->
+         Forall (fun x : N => (x < 256)%N) b ->
+         Forall (fun x : N => (x < 256)%N) o ->
+         Z.of_nat (length b) = ((cap + 7) / 8)%Z ->
+         length o = length b ->
+         result (run leaf_ftable (ba_consts cap) BitArrayT_13__op_and_assign [] [] (ba2_obj b o)) =
+         Some (None, [], ba2_obj (ba_and_assign b o) o).
+Proof. exact src_BitArray_and_assign. Qed.
+Print Assumptions C20_source_BitArray_and_assign_is_the_model.
+Theorem C20_source_BitArray_get_u8_is_the_model :
+  forall (cap : Z) (b : list N) (n : N),
+         (1 <= cap <= 255)%Z ->
+         Forall (fun x : N => (x < 256)%N) b ->
+         Z.of_nat (length b) = ((cap + 7) / 8)%Z ->
+         (Z.of_N n < cap)%Z ->
+         result
+           (run leaf_ftable (ba_consts cap) BitArrayT_13__get_u8 [Z.of_N n] []
+              [(String.String (Ascii.Ascii true true true true true false true false)
+                  (String.String (Ascii.Ascii true true false false true true true false)
+                     (String.String (Ascii.Ascii false false true false true true true false)
+                        (String.String (Ascii.Ascii true true true true false true true false)
+                           (String.String (Ascii.Ascii false true false false true true true false)
+                              (String.String (Ascii.Ascii true false false false false true true false)
+                                 (String.String (Ascii.Ascii true true true false false true true false)
+                                    (String.String (Ascii.Ascii true false true false false true true false) String.EmptyString))))))),
+                zs b)]) =
+         Some
+           (Some (b2z (ba_get b n)), [],
+            [(String.String (Ascii.Ascii true true true true true false true false)
+                (String.String (Ascii.Ascii true true false false true true true false)
+                   (String.String (Ascii.Ascii false false true false true true true false)
+                      (String.String (Ascii.Ascii true true true true false true true false)
+                         (String.String (Ascii.Ascii false true false false true true true false)
+                            (String.String (Ascii.Ascii true false false false false true true false)
+                               (String.String (Ascii.Ascii true true true false false true true false)
+                                  (String.String (Ascii.Ascii true false true false false true true false) String.EmptyString))))))),
+              zs b)]).
+Proof. exact src_BitArray_get_u8. Qed.
+Print Assumptions C20_source_BitArray_get_u8_is_the_model.
+Theorem C20_source_BitArray_set_u8_is_the_model :
+  forall (cap : Z) (b : list N) (n : N),
+         (1 <= cap <= 255)%Z ->
+         Forall (fun x : N => (x < 256)%N) b ->
+         Z.of_nat (length b) = ((cap + 7) / 8)%Z ->
+         (Z.of_N n < cap)%Z ->
+         result
+           (run leaf_ftable (ba_consts cap) BitArrayT_13__set_u8 [Z.of_N n] []
+              [(String.String (Ascii.Ascii true true true true true false true false)
+                  (String.String (Ascii.Ascii true true false false true true true false)
+                     (String.String (Ascii.Ascii false false true false true true true false)
+                        (String.String (Ascii.Ascii true true true true false true true false)
+                           (String.String (Ascii.Ascii false true false false true true true false)
+                              (String.String (Ascii.Ascii true false false false false true true false)
+                                 (String.String (Ascii.Ascii true true true false false true true false)
+                                    (String.String (Ascii.Ascii true false true false false true true false) String.EmptyString))))))),
+                zs b)]) =
+         Some
+           (None, [],
+            [(String.String (Ascii.Ascii true true true true true false true false)
+                (String.String (Ascii.Ascii true true false false true true true false)
+                   (String.String (Ascii.Ascii false false true false true true true false)
+                      (String.String (Ascii.Ascii true true true true false true true false)
+                         (String.String (Ascii.Ascii false true false false true true true false)
+                            (String.String (Ascii.Ascii true false false false false true true false)
+                               (String.String (Ascii.Ascii true true true false false true true false)
+                                  (String.String (Ascii.Ascii true false true false false true true false) String.EmptyString))))))),
+              zs (ba_set b n))]).
+Proof. exact src_BitArray_set_u8. Qed.
+Print Assumptions C20_source_BitArray_set_u8_is_the_model.
+Theorem C20_source_BitArray_clear_u8_is_the_model :
+  forall (cap : Z) (b : list N) (n : N),
+         (1 <= cap <= 255)%Z ->
+         Forall (fun x : N => (x < 256)%N) b ->
+         Z.of_nat (length b) = ((cap + 7) / 8)%Z ->
+         (Z.of_N n < cap)%Z ->
+         result
+           (run leaf_ftable (ba_consts cap) BitArrayT_13__clear_u8 [Z.of_N n] []
+              [(String.String (Ascii.Ascii true true true true true false true false)
+                  (String.String (Ascii.Ascii true true false false true true true false)
+                     (String.String (Ascii.Ascii false false true false true true true false)
+                        (String.String (Ascii.Ascii true true true true false true true false)
+                           (String.String (Ascii.Ascii false true false false true true true false)
+                              (String.String (Ascii.Ascii true false false false false true true false)
+                                 (String.String (Ascii.Ascii true true true false false true true false)
+                                    (String.String (Ascii.Ascii true false true false false true true false) String.EmptyString))))))),
+                zs b)]) =
+         Some
+           (None, [],
+            [(String.String (Ascii.Ascii true true true true true false true false)
+                (String.String (Ascii.Ascii true true false false true true true false)
+                   (String.String (Ascii.Ascii false false true false true true true false)
+                      (String.String (Ascii.Ascii true true true true false true true false)
+                         (String.String (Ascii.Ascii false true false false true true true false)
+                            (String.String (Ascii.Ascii true false false false false true true false)
+                               (String.String (Ascii.Ascii true true true false false true true false)
+                                  (String.String (Ascii.Ascii true false true false false true true false) String.EmptyString))))))),
+              zs (ba_clear b n))]).
+Proof. exact src_BitArray_clear_u8. Qed.
+Print Assumptions C20_source_BitArray_clear_u8_is_the_model.
+Theorem C20_source_BitArray_wide_consts_is_the_model :
+  forall cap : Z,
+         (256 <= cap <= 65535)%Z -> build_consts leaf_ftable ba16_consts_defs (ncapacity cap) = Some (ba_consts cap).
+Proof. exact src_BitArray16_consts. Qed.
+Print Assumptions C20_source_BitArray_wide_consts_is_the_model.
+Theorem C20_source_BitArray_wide_get_is_the_model :
+  forall (cap : Z) (b : list N) (n : N),
+         (256 <= cap <= 65535)%Z ->
+         Forall (fun x : N => (x < 256)%N) b ->
+         Z.of_nat (length b) = ((cap + 7) / 8)%Z ->
+         (Z.of_N n < cap)%Z ->
+         result
+           (run leaf_ftable (ba_consts cap) BitArrayT_300__get_u32 [Z.of_N n] []
+              [(String.String (Ascii.Ascii true true true true true false true false)
+                  (String.String (Ascii.Ascii true true false false true true true false)
+                     (String.String (Ascii.Ascii false false true false true true true false)
+                        (String.String (Ascii.Ascii true true true true false true true false)
+                           (String.String (Ascii.Ascii false true false false true true true false)
+                              (String.String (Ascii.Ascii true false false false false true true false)
+                                 (String.String (Ascii.Ascii true true true false false true true false)
+                                    (String.String (Ascii.Ascii true false true false false true true false) String.EmptyString))))))),
+                zs b)]) =
+         Some
+           (Some (b2z (ba_get b n)), [],
+            [(String.String (Ascii.Ascii true true true true true false true false)
+                (String.String (Ascii.Ascii true true false false true true true false)
+                   (String.String (Ascii.Ascii false false true false true true true false)
+                      (String.String (Ascii.Ascii true true true true false true true false)
+                         (String.String (Ascii.Ascii false true false false true true true false)
+                            (String.String (Ascii.Ascii true false false false false true true false)
+                               (String.String (Ascii.Ascii true true true false false true true false)
+                                  (String.String (Ascii.Ascii true false true false false true true false) String.EmptyString))))))),
+              zs b)]).
+Proof. exact src_BitArray16_get. Qed.
+Print Assumptions C20_source_BitArray_wide_get_is_the_model.
+Theorem C20_source_BitArray_wide_set_is_the_model :
+  forall (cap : Z) (b : list N) (n : N),
+         (256 <= cap <= 65535)%Z ->
+         Forall (fun x : N => (x < 256)%N) b ->
+         Z.of_nat (length b) = ((cap + 7) / 8)%Z ->
+         (Z.of_N n < cap)%Z ->
+         result
+           (run leaf_ftable (ba_consts cap) BitArrayT_300__set_u32 [Z.of_N n] []
+              [(String.String (Ascii.Ascii true true true true true false true false)
+                  (String.String (Ascii.Ascii true true false false true true true false)
+                     (String.String (Ascii.Ascii false false true false true true true false)
+                        (String.String (Ascii.Ascii true true true true false true true false)
+                           (String.String (Ascii.Ascii false true false false true true true false)
+                              (String.String (Ascii.Ascii true false false false false true true false)
+                                 (String.String (Ascii.Ascii true true true false false true true false)
+                                    (String.String (Ascii.Ascii true false true false false true true false) String.EmptyString))))))),
+                zs b)]) =
+         Some
+           (None, [],
+            [(String.String (Ascii.Ascii true true true true true false true false)
+                (String.String (Ascii.Ascii true true false false true true true false)
+                   (String.String (Ascii.Ascii false false true false true true true false)
+                      (String.String (Ascii.Ascii true true true true false true true false)
+                         (String.String (Ascii.Ascii false true false false true true true false)
+                            (String.String (Ascii.Ascii true false false false false true true false)
+                               (String.String (Ascii.Ascii true true true false false true true false)
+                                  (String.String (Ascii.Ascii true false true false false true true false) String.EmptyString))))))),
+              zs (ba_set b n))]).
+Proof. exact src_BitArray16_set. Qed.
+Print Assumptions C20_source_BitArray_wide_set_is_the_model.
+Theorem C20_source_BitArray_wide_clear_is_the_model :
+  forall (cap : Z) (b : list N) (n : N),
+         (256 <= cap <= 65535)%Z ->
+         Forall (fun x : N => (x < 256)%N) b ->
+         Z.of_nat (length b) = ((cap + 7) / 8)%Z ->
+         (Z.of_N n < cap)%Z ->
+         result
+           (run leaf_ftable (ba_consts cap) BitArrayT_300__clear_u32 [Z.of_N n] []
+              [(String.String (Ascii.Ascii true true true true true false true false)
+                  (String.String (Ascii.Ascii true true false false true true true false)
+                     (String.String (Ascii.Ascii false false true false true true true false)
+                        (String.String (Ascii.Ascii true true true true false true true false)
+                           (String.String (Ascii.Ascii false true false false true true true false)
+                              (String.String (Ascii.Ascii true false false false false true true false)
+                                 (String.String (Ascii.Ascii true true true false false true true false)
+                                    (String.String (Ascii.Ascii true false true false false true true false) String.EmptyString))))))),
+                zs b)]) =
+         Some
+           (None, [],
+            [(String.String (Ascii.Ascii true true true true true false true false)
+                (String.String (Ascii.Ascii true true false false true true true false)
+                   (String.String (Ascii.Ascii false false true false true true true false)
+                      (String.String (Ascii.Ascii true true true true false true true false)
+                         (String.String (Ascii.Ascii false true false false true true true false)
+                            (String.String (Ascii.Ascii true false false false false true true false)
+                               (String.String (Ascii.Ascii true true true false false true true false)
+                                  (String.String (Ascii.Ascii true false true false false true true false) String.EmptyString))))))),
+              zs (ba_clear b n))]).
+Proof. exact src_BitArray16_clear. Qed.
+Print Assumptions C20_source_BitArray_wide_clear_is_the_model.
+Theorem C20_source_BitArray_wide_set_all_is_the_model :
+  forall (capN : N) (b : list N),
+         (256 <= capN <= 65535)%N ->
+         Forall (fun x : N => (x < 256)%N) b ->
+         N.of_nat (length b) = ((capN + 7) / 8)%N ->
+         result (run leaf_ftable (ba_consts (Z.of_N capN)) BitArrayT_300__set [] [] (ba_obj b)) =
+         Some (None, [], ba_obj (ba_set_all capN b)).
+Proof. exact src_BitArray16_set_all. Qed.
+Print Assumptions C20_source_BitArray_wide_set_all_is_the_model.
+Theorem C20_source_BitArray_wide_clear_all_is_the_model :
+  forall (cap : Z) (b : list N),
+         (256 <= cap <= 65535)%Z ->
+         Forall (fun x : N => (x < 256)%N) b ->
+         Z.of_nat (length b) = ((cap + 7) / 8)%Z ->
+         result (run leaf_ftable (ba_consts cap) BitArrayT_300__clear [] [] (ba_obj b)) = Some (None, [], ba_obj (ba_clear_all b)).
+Proof. exact src_BitArray16_clear_all. Qed.
+Print Assumptions C20_source_BitArray_wide_clear_all_is_the_model.
+Theorem C20_source_BitArray_wide_empty_is_the_model :
+  forall (cap : Z) (b : list N),
+         (256 <= cap <= 65535)%Z ->
+         Forall (fun x : N => (x < 256)%N) b ->
+         Z.of_nat (length b) = ((cap + 7) / 8)%Z ->
+         result (run leaf_ftable (ba_consts cap) BitArrayT_300__empty [] [] (ba_obj b)) =
+         Some (Some (b2z (ba_empty b)), [], ba_obj b).
+Proof. exact src_BitArray16_empty. Qed.
+Print Assumptions C20_source_BitArray_wide_empty_is_the_model.
+Theorem C20_source_BitArray_wide_and_is_the_model :
+  forall (cap : Z) (b o : list N),
+         (256 <= cap <= 65535)%Z ->
+         Forall (fun x : N => (x < 256)%N) b ->
+         Forall (fun x : N => (x < 256)%N) o ->
+         Z.of_nat (length b) = ((cap + 7) / 8)%Z ->
+         length o = length b ->
+         result (run leaf_ftable (ba_consts cap) BitArrayT_300__op_and [] [] (ba2_obj b o)) =
+         Some (Some (b2z (ba_and b o)), [], ba2_obj b o).
+Proof. exact src_BitArray16_and. Qed.
+Print Assumptions C20_source_BitArray_wide_and_is_the_model.
+Theorem C20_source_BitArray_wide_and_assign_is_the_model :
+  forall (cap : Z) (b o : list N),
+         (256 <= cap <= 65535)%Z ->
+         Forall (fun x : N => (x < 256)%N) b ->
+         Forall (fun x : N => (x < 256)%N) o ->
+         Z.of_nat (length b) = ((cap + 7) / 8)%Z ->
+         length o = length b ->
+         result (run leaf_ftable (ba_consts cap) BitArrayT_300__op_and_assign [] [] (ba2_obj b o)) =
+         Some (None, [], ba2_obj (ba_and_assign b o) o).
+Proof. exact src_BitArray16_and_assign. Qed.
+Print Assumptions C20_source_BitArray_wide_and_assign_is_the_model.
 End SourceTie.
 
 (* non-vacuity: capacity 12, set-all then clear every index: empty (the history that failed before the repair) *)
